@@ -49,6 +49,18 @@ def _is_any(mm: MetaModel, t: Dict) -> Optional[str]:
     return None
 
 
+def reverse_keys(v: Any, depth: int = 0) -> Any:
+    """The same JSON value with the members of every object in the opposite order (a JSON object is unordered: a sender may write
+    `{"b": .., "a": ..}` as well); shared sub-objects stay shared."""
+    if depth > 40:
+        return v
+    if isinstance(v, dict):
+        return {k: reverse_keys(x, depth + 1) for k, x in reversed(list(v.items()))}
+    if isinstance(v, list):
+        return [reverse_keys(x, depth + 1) for x in v]
+    return v
+
+
 def odd_payload_variants(mm: MetaModel, d: Decl, base: Dict) -> List[Any]:
     """Valid values with unusual shapes: a deeply nested and an internally shared payload at every LSPAny / LSPObject / LSPArray property,
     an array of them at LSPAny[] properties, and a long chain at a property through which the structure refers to itself."""
@@ -120,6 +132,11 @@ def root_inputs(mm: MetaModel, d: Decl, cap: int = 60) -> List[Any]:
             seen.add(k)
             uniq.append(j)
     uniq = uniq[:cap]
+    # the maximal witness and up to four more with every object's members in the opposite order (not subject to the de-duplication above,
+    # which ignores member order)
+    for j in [base] + [u for u in uniq if isinstance(u, dict) and len(u) > 1][:4]:
+        if isinstance(j, dict) and len(j) > 1 and mm.valid(t, j, True):
+            uniq.append(reverse_keys(j))
     if True:
         # random strictly valid values on top of the structured family (seeded by VERIF_SEED and the class name): a few in the quick
         # tier, RANDOM_PER_CLASS in the thorough tier
